@@ -653,9 +653,14 @@ def oracle_perm(ctx, N, nmax):
                 failed = True
                 break
             gap = min(gap, log.min_gap)
-            with quiet():
-                runs.append(([int(t) for t in f.labels_], [int(t) for t in f.predict(X[: max(1, n // 2)])],
-                             [[np.asarray(w, dtype=float) for w in f.modules[order.index(j)].W] for j in range(k)]))
+            try:
+                with quiet():
+                    runs.append(([int(t) for t in f.labels_], [int(t) for t in f.predict(X[: max(1, n // 2)])],
+                                 [[np.asarray(w, dtype=float) for w in f.modules[order.index(j)].W] for j in range(k)]))
+            except Exception as e:
+                ctx.issue("violation", f"FusionART.predict:{exc_enum(e)}", f"predict on training rows raised {e!r}", rep)
+                failed = True
+                break
         if failed:
             continue
         cov.case((cls, sp, dims, gam, rep["X"].tolist(), perm, mode, eps, vt), len(runs[0][2][0]) >= 2 and perm != list(range(k)))
